@@ -304,6 +304,8 @@ class BaseInterpreter(Generic[TContext, TEvent]):
         # How many times each state's `after` timers have been armed; an
         # `AfterEvent` carries the count it was armed under (see there).
         self._timer_activation: Dict[str, int] = {}
+        # Likewise per invoke id: how many times the service has been invoked.
+        self._invoke_activation: Dict[str, int] = {}
         #: Remembered configurations for history pseudo-states, keyed by the
         #: *parent* state id. Recorded on exit, replayed when a transition
         #: targets a `type: "history"` child of that parent.
@@ -1501,6 +1503,25 @@ class BaseInterpreter(Generic[TContext, TEvent]):
             )
         registry[system_id] = actor
 
+    def _stamp_completion(
+        self, event: Union[Event, AfterEvent, DoneEvent]
+    ) -> Union[Event, AfterEvent, DoneEvent]:
+        """Marks a service completion with the invocation it belongs to.
+
+        Called when the event is queued: at that moment the invocation that
+        produced it is still the current one (leaving the state cancels a
+        running service), so the current number identifies it.
+        """
+        if (
+            isinstance(event, DoneEvent)
+            and event.activation is None
+            and event.type.startswith(("done.invoke.", "error.platform."))
+        ):
+            number = self._invoke_activation.get(event.src)
+            if number is not None:
+                return event._replace(activation=number)
+        return event
+
     def _drop_own_system_ids(self) -> None:
         """Drops every `system_id` that points at this actor from the registry.
 
@@ -2641,9 +2662,19 @@ class BaseInterpreter(Generic[TContext, TEvent]):
                             eligible.append(t)
 
             # 🤖 `onDone`/`onError` for invoked services.
+            #
+            # 🕰️ A completion is an ordinary queued event: if the state was
+            #    left and entered again while it waited, the invocation it
+            #    reports on is gone and the new one is still running. It used
+            #    to be matched by invoke id alone and drove the new
+            #    invocation's onDone/onError with the old result.
             if isinstance(event, DoneEvent):
                 for inv in current.invoke:
-                    if event.src == inv.id:
+                    if event.src == inv.id and not (
+                        event.activation is not None
+                        and event.activation
+                        != self._invoke_activation.get(inv.id)
+                    ):
                         for t in inv.on_done + inv.on_error:
                             if t.event == event.type and _passes(t):
                                 eligible.append(t)
@@ -2962,6 +2993,11 @@ class BaseInterpreter(Generic[TContext, TEvent]):
                     f"Service '{invocation.src}' referenced by "
                     f"state '{state.id}' is not registered."
                 )
+            # 🔢 Number the invocation BEFORE starting it: a synchronous
+            #    service completes (and queues its result) inside the call.
+            self._invoke_activation[invocation.id] = (
+                self._invoke_activation.get(invocation.id, 0) + 1
+            )
             self._invoke_service(
                 invocation, service_callable, owner_id=state.id
             )
